@@ -26,7 +26,7 @@ RULE = ('a case = a generated project (modules, a package with sub-modules, a st
         'different size, append, delete, rename over another file, module->package, '
         'package->module, add/remove __init__.py, add/remove .pyi, touch}, each with a timing '
         'variant {natural mtime, mtime forced equal, mtime forced older (os.utime / rename of an '
-        'older file)}. After every step process A asks 6 import-based queries through new Scripts; '
+        'older file)}. After every step process A asks 10 import-based queries (incl. a sub-module that appears and disappears while the package __init__ stays untouched) through new Scripts; '
         'every third step and at the end the same queries go to a fresh process B (empty cache) and '
         'to a new process C sharing A\'s cache directory; normal forms must be equal. Non-trivial: '
         '>= 10 comparisons with a non-empty answer; distinct by history digest.')
@@ -62,6 +62,11 @@ QUERIES_TEXT = [
     ('import pkga.sub\npkga.sub.', 'complete', 2, 9),
     ('from pkga import sub\nsub.common_fn', 'goto_follow', 2, 8),
     ('import modb\nmodb.common_fn(', 'get_signatures', 2, 15),
+    # a sub-module that does not exist at first and appears / disappears while pkga/__init__.py
+    # stays as it is: reached through the package's own listing of its sub-modules
+    ('import pkga.extra\npkga.extra.', 'complete', 2, 11),
+    ('from pkga import ', 'complete', 1, 17),
+    ('import pkga.extra\npkga.', 'complete', 2, 5),
 ]
 REL_QUERY = ('from . import sub\nsub.', 'complete', 2, 4)
 
@@ -91,7 +96,7 @@ def mutate_fs(rnd, root, version, log):
         return timing if old is not None else 'natural'
 
     timing = rnd.choice(['natural', 'natural', 'natural', 'equal', 'older'])
-    target = rnd.choice(['moda', 'modb', 'pkga/sub', 'pkga/__init__'])
+    target = rnd.choice(['moda', 'modb', 'pkga/sub', 'pkga/__init__', 'pkga/extra', 'pkga/extra'])
     rel = target + '.py'
     p = os.path.join(root, rel)
     kind = rnd.choice(['overwrite', 'overwrite_same_size', 'append', 'delete', 'rename_over',
